@@ -95,6 +95,28 @@ func c04Lookup(db *DB, key []byte) ([]byte, error) {
 	return out, nil
 }
 
+// c04LoadAll reads every bucket whole (Bucket.Load, the second reading path of the format) and returns the values
+// of all entries.
+func c04LoadAll(db *DB, batch int) ([][]byte, error) {
+	var out [][]byte
+	for i := uint(0); i < uint(db.Header.NumBuckets); i++ {
+		b, err := db.GetBucket(i)
+		if err != nil {
+			return nil, fmt.Errorf("GetBucket(%d): %w", i, err)
+		}
+		es, err := b.Load(batch)
+		if err != nil {
+			return nil, fmt.Errorf("bucket %d: Load(%d): %w", i, batch, err)
+		}
+		for _, e := range es {
+			v := make([]byte, 8)
+			binary.LittleEndian.PutUint64(v, e.Value)
+			out = append(out, v)
+		}
+	}
+	return out, nil
+}
+
 func c04IsNotFound(err error) bool { return errors.Is(err, ErrNotFound) }
 
 // c04Value: an offset <= the declared file size (the documented contract of the legacy builder);
@@ -384,6 +406,31 @@ func c04Verify(data []byte, kvs []c04KV, prefetch bool, after func(*DB) string) 
 		}
 		if !bytes.Equal(got, kvs[i].V) {
 			return fmt.Sprintf("inserted key #%d (%s) of %d: Lookup -> value %s, inserted value %s", i, c04KeyDesc(kvs[i].K), len(kvs), c04ValDesc(got), c04ValDesc(kvs[i].V)), "", nil
+		}
+	}
+	// the same entries read bucket by bucket: every inserted value once, nothing else (with the default batch size
+	// and with batches of three entries, so that a bucket takes several batches)
+	for _, batch := range []int{0, 3} {
+		var vals [][]byte
+		err, pn = c04Guard("Load", func() error { var e error; vals, e = c04LoadAll(db, batch); return e })
+		if pn != nil {
+			return "", "", pn
+		}
+		if err != nil {
+			return fmt.Sprintf("reading the buckets whole (batch size %d): %v", batch, err), "", nil
+		}
+		if len(vals) != len(kvs) {
+			return fmt.Sprintf("reading the buckets whole (batch size %d): %d entries, %d pairs inserted", batch, len(vals), len(kvs)), "", nil
+		}
+		want := map[string]int{}
+		for i := range kvs {
+			want[string(kvs[i].V)]++
+		}
+		for _, v := range vals {
+			if want[string(v)] == 0 {
+				return fmt.Sprintf("reading the buckets whole (batch size %d): an entry carries value %s, which was not inserted (or more often than it was inserted); %d pairs", batch, c04ValDesc(v), len(kvs)), "", nil
+			}
+			want[string(v)]--
 		}
 	}
 	if after != nil {
